@@ -26,7 +26,8 @@ CONSTANTS BS,        \* slots per block (64 in the code; 2..3 for exhaustive run
           NEmpties,  \* is_empty calls
           Prefill,   \* slots of block 1 already written at start
           MaxBlk,    \* bound on block ids (must never bind: see BoundOK)
-          LinkFirst
+          LinkFirst,
+          ClearRetries  \* clear_with loads the tail again when its compare-exchange fails (repaired code, fix a645ad6); FALSE: gives up (CF07a)
 
 Null == 0
 Blocks == 1..MaxBlk
@@ -220,7 +221,8 @@ CCas ==
             /\ detached' = detached \cup ReachFrom(lt[Clearer])
             /\ pc' = [pc EXCEPT ![Clearer] = "c_len"]
             /\ UNCHANGED clears
-       ELSE /\ FinishClear /\ pc' = [pc EXCEPT ![Clearer] = "c_load"]
+       ELSE /\ IF ClearRetries THEN UNCHANGED clears ELSE FinishClear      \* the tail moved: load again / (CF07a) give up
+            /\ pc' = [pc EXCEPT ![Clearer] = "c_load"]
             /\ UNCHANGED <<tail, cur, detached>>
   /\ UNCHANGED <<write, ack, slots, next, nalloc, lt, nb, idx, k, llen, dn,
                  pre, delivered, seen, completed, blockOf, dnOf, rstart, estart, snapOK, emptyOK, einfl, emptyStrict, eres, reads, empties>>
